@@ -225,7 +225,7 @@ def registry():
         v = Spec("sedov.sedov.Sedov@vacuum", b2.cls)
         v.kwargs = {"geometry": 3, "omega": 2.4, "gamma": 1.4}
         v.alt = {"geometry": 2, "omega": 1.7}
-        v.points = lin(0.35, 1.2); v.t = 1.0; v.cost = "slow"
+        v.points = lin(0.06, 0.62); v.t = 1.0; v.cost = "slow"      # straddles the vacuum boundary (0.07 ... 0.16) and the shock (0.46 ... 0.6)
         _CACHE[v.name] = v
     return _CACHE
 
